@@ -122,6 +122,8 @@ var formats = []struct {
 	f    migrate.Formatter
 }{
 	{"atlas", migrate.DefaultFormatter},
+	// the same formatter through Planner.WriteCheckpoint on a directory (adds the checkpoint directive).
+	{"atlas-checkpoint", migrate.DefaultFormatter},
 	{"golang-migrate", sqltool.GolangMigrateFormatter},
 	{"goose", sqltool.GooseFormatter},
 	{"flyway", sqltool.FlywayFormatter},
@@ -135,7 +137,7 @@ const cmtMark = "CMTMARK7"
 func readBack(d *dialectT, format string, files []migrate.File) ([]string, error) {
 	lf := func(f migrate.File) *migrate.LocalFile { return migrate.NewLocalFile(f.Name(), f.Bytes()) }
 	switch format {
-	case "atlas", "liquibase":
+	case "atlas", "atlas-checkpoint", "liquibase":
 		return migrate.FileStmts(d.driver, lf(files[0]))
 	case "golang-migrate":
 		for _, f := range files {
@@ -206,6 +208,17 @@ func Eval(c Case) (problems []string, skipped string, cmds []string) {
 	if err != nil {
 		bad("format: %v", err)
 		return
+	}
+	if c.Format == "atlas-checkpoint" {
+		dir := &migrate.MemDir{}
+		if err := migrate.NewPlanner(nil, dir, migrate.PlanFormat(fm)).WriteCheckpoint(plan, ""); err != nil {
+			bad("WriteCheckpoint: %v", err)
+			return
+		}
+		if files, err = dir.Files(); err != nil || len(files) != 1 {
+			bad("checkpoint directory lists %d files (%v)", len(files), err)
+			return
+		}
 	}
 	got, err := readBack(d, c.Format, files)
 	if err != nil {
@@ -286,7 +299,7 @@ func cases(tier string) []Case {
 				for _, f := range formats {
 					for _, ind := range []string{"", "  "} {
 						delims := []string{""}
-						if f.name == "atlas" {
+						if f.name == "atlas" || f.name == "atlas-checkpoint" {
 							delims = []string{"", "\nGO", "//", "\n-- end"}
 						}
 						if tier == "thorough" && len(ch.vals) == 2 && ind != "" {
@@ -318,7 +331,7 @@ func ownQuote(c Case) bool {
 }
 
 func Run(r *report.Run) {
-	r.Rule = "plans of the real MySQL/PostgreSQL/SQLite planners over a two-table schema in which one slot (thorough: two slots) out of 11 (table/column/index/check/foreign-key name, table/column/index comment, string default, enum value, check string literal) holds each of 20 adversarial strings (quotes, semicolon, comment markers, backslash, newline, dollar tags, BEGIN/END, DELIMITER and atlas:delimiter lines) x change kind {create, drop, alter, alter back} x 6 formatters x indent {none, two spaces} x plan delimiter (atlas format: default, \\nGO, //, \\n-- end); the file is read back with the matching reader and the dialect's scanner and must yield exactly Plan.Changes[].Cmd; every change comment carries a marker that must not reach a statement; non-trivial = case with >=1 adversarial slot; distinct = (dialect, slots, kind, format, indent, delimiter)"
+	r.Rule = "plans of the real MySQL/PostgreSQL/SQLite planners over a two-table schema in which one slot (thorough: two slots) out of 11 (table/column/index/check/foreign-key name, table/column/index comment, string default, enum value, check string literal) holds each of 20 adversarial strings (quotes, semicolon, comment markers, backslash, newline, dollar tags, BEGIN/END, DELIMITER and atlas:delimiter lines) x change kind {create, drop, alter, alter back} x 6 formatters (the atlas one also through Planner.WriteCheckpoint) x indent {none, two spaces} x plan delimiter (atlas format: default, \\nGO, //, \\n-- end); the file is read back with the matching reader and the dialect's scanner and must yield exactly Plan.Changes[].Cmd; every change comment carries a marker that must not reach a statement; non-trivial = case with >=1 adversarial slot; distinct = (dialect, slots, kind, format, indent, delimiter)"
 	r.Assumptions = []string{
 		"statement text is compared after trimming one trailing ';'",
 		"third-party import through the CLI is covered by the CLI-driven slice",
